@@ -141,6 +141,10 @@ func runC15(c *Ctx) {
 
 	c.Rule("R15g", ruleTextIndependentAttrs, 4)
 	checkIndependentAttrs(c, "R15g", []string{pSqlite, pMysql, pPostgres})
+	c.Rule("R15i", ruleTextFloatDigits, 2)
+	checkFloatDigits(c, "R15i")
+	c.Rule("R15j", ruleTextIntParserGuard, 1)
+	checkIntParserGuard(c, "R15j")
 	c.Rule("R15h", ruleTextOpaqueUDT, 1)
 	checkOpaqueUDT(c, "R15h", []string{pSqlite, pMysql, pPostgres})
 
@@ -330,6 +334,12 @@ func runC03(c *Ctx) {
 	checkFKActionGuards(c, "R03f", []string{pSqlite, pMysql, pPostgres})
 	c.Rule("R03g", ruleTextOpaqueUDT, 1)
 	checkOpaqueUDT(c, "R03g", []string{pSqlite})
+	c.Rule("R03h", ruleTextMayWrapSymmetric, 5)
+	checkMayWrapSymmetric(c, "R03h")
+	c.Rule("R03i", ruleTextFloatDigits, 2)
+	checkFloatDigits(c, "R03i")
+	c.Rule("R03j", ruleTextIntParserGuard, 1)
+	checkIntParserGuard(c, "R03j")
 
 	// R03b
 	if fi := c.Func("R03b", pCmdlog, "", "fmtPlan"); fi != nil {
